@@ -5,7 +5,7 @@ ID=$1
 W=/tmp/wt_$ID; S=/tmp/ref_$ID
 [ -f $S/patch.diff ] || { echo "no patch for $ID"; exit 1; }
 echo "== $ID: touches: $(grep '^+++ ' $S/patch.diff | tr '\n' ' ') ($(grep -c '^[+-][^+-]' $S/patch.diff) changed lines)"
-cd $W; git checkout -q -- . ; git apply $S/patch.diff || { echo "patch does not apply"; exit 1; }
+cd $W; git checkout -q -- . ; git reset -q; git clean -fdq persim; git apply $S/patch.diff || { echo "patch does not apply"; exit 1; }
 if [ "$2" != "--no-suite" ]; then
 echo -n "suite: "; PYTHONPATH=$W /venv/bin/python -m pytest -q -p no:cacheprovider --timeout=900 2>&1 | tail -1
 echo -n "equiv: "; PYTHONPATH=$W MPLBACKEND=Agg timeout 900 /venv/bin/python $S/equiv.py > /tmp/equiv_$ID.out 2>&1; echo "exit=$? $(grep -E 'PASS|FAIL' /tmp/equiv_$ID.out | tail -1)"
